@@ -131,6 +131,7 @@ HELPERS = {
     'holds': _holds,
     'chars_hold': lambda s, a, b, m: all(_holds(m, s[i]) for i in range(a, b)),
     'same_str': lambda a, b: a == b,
+    'occurs_at': lambda s, p, t: p >= 0 and s[p:p + len(t)] == t,
     'fresh': lambda x: True,
     'allocated': lambda x: True,
     'same': lambda a, b: a is b or (type(a) is type(b) and a == b),
